@@ -55,6 +55,9 @@ OPTION_SETS = [
     ['-ff', 'martini3001', '-cys', 'none', '-resid', 'input'],
     ['-ff', 'martini22', '-noscfix', '-merge', 'all'],
     ['-ff', 'martini3001', '-noscfix', '-ss', 'C'],
+    ['-ff', 'martini3001', '-nter', 'NCAP-ter', '-cter', 'CCAP-ter'],
+    ['-ff', 'martini3001', '-nter', 'NCAP-ter'],
+    ['-ff', 'martini22', '-nt', '-noscfix', '-cter', 'CCAP-ter'],
     ['-ff', 'martini3001', '-go'],
     ['-ff', 'martini3001', '-go', '-go-eps', '12', '-go-res-dist', '4', '-water-bias', '-water-bias-eps', 'H:3.6', 'C:2.1', '-ss', 'H'],
 ]
@@ -283,6 +286,8 @@ def cases(tier, seed):
         options = rnd.choice(OPTION_SETS)
         if tier == 'quick' and g == groups - 1:
             options = OPTION_SETS[-2 + seed % 2]      # every quick run has one Go-model group
+        if tier == 'quick' and g == groups - 2:
+            options = OPTION_SETS[-4 + seed % 2]      # ... and one with requested terminal modifications (caps / neutral)
         pres = rnd.sample(PRESENTATIONS, npres) if npres < len(PRESENTATIONS) else list(PRESENTATIONS)
         if not any(p[0] == 'hashseed' for p in pres):
             pres[-1] = ('hashseed', {})
@@ -309,6 +314,17 @@ def run_case(params):
         r = run_cli(pdb, params['options'], 'reference', {}, 0, 0, ref_dir)
         b.total += 1
         if r.returncode != 0:
+            # does the same, unchanged input convert under another hash seed?  Then the outcome depends on the hash seed.
+            for hs in (6, 7, 8, 11, 13, 17):
+                alt = os.path.join(base, 'ref-hs%d' % hs)
+                r_alt = run_cli(pdb, params['options'], 'hashseed', {}, 0, hs, alt)
+                b.total += 1
+                if r_alt.returncode == 0:
+                    b.hits += 1
+                    b.violation('hashseed/run-failed', 'the pipeline fails under one hash seed and converts the same input under another',
+                                {'input': params['pdb'], 'options': params['options'], 'fails_with_hashseed': 0, 'works_with_hashseed': hs,
+                                 'returncode': r.returncode, 'stderr': r.stderr[-1200:]})
+                    return b.result()
             b.inconclusive('reference-run-failed')
             rec = b.result()
             rec['why_detail'] = r.stderr[-800:]
